@@ -533,8 +533,28 @@ func errcodeSetOnReturnedError(c *Ctx) {
 func formBodiesQueryUnescaped(c *Ctx) {
 	c.R.Rule("form-bodies-query-unescaped", "the url-encoded form transport decodes with url.QueryUnescape / url.ParseQuery, never url.PathUnescape (in a form body '+' encodes a space)", 1)
 	n := 0
+	// the transport's Do and what it calls inside the package
+	scope := map[*ssa.Function]bool{}
+	if do := c.W.Func(pkgTransport, "UrlEncodedForm.Do"); do != nil {
+		var add func(f *ssa.Function, d int)
+		add = func(f *ssa.Function, d int) {
+			if f == nil || scope[f] || d > 4 {
+				return
+			}
+			scope[f] = true
+			for _, cl := range an.WithClosures(f) {
+				scope[cl] = true
+				for _, call := range an.CallsIn(cl, func(_ ssa.CallInstruction, ci an.CalleeInfo) bool {
+					return ci.Static != nil && ci.Static.Pkg == f.Pkg
+				}) {
+					add(call.Common().StaticCallee(), d+1)
+				}
+			}
+		}
+		add(do, 0)
+	}
 	for _, fn := range transportFuncs(c) {
-		if !strings.Contains(strings.ToLower(shortFn(topFn(fn))), "urlencodedform") {
+		if !scope[fn] {
 			continue
 		}
 		for _, call := range an.CallsIn(fn, func(_ ssa.CallInstruction, ci an.CalleeInfo) bool {
